@@ -35,7 +35,9 @@ def run(ev, vd):
     # worklists (publish / steal / fall back to the unpublished chunk) and OBIM (lazily shared priority bags, back-scan prevention)
     for mod, cfgs, mutant in (("MCForEachExec", ["MCForEachExec.cfg"], "MCForEachExec_mutant.cfg"),
                               ("MCChunkWL", ["MCChunkWL.cfg"], "MCChunkWL_mutant.cfg"),
-                              ("Obim", ["Obim.cfg"] + (["Obim_thorough.cfg"] if tier() == "thorough" else []), "Obim_mutant.cfg")):
+                              ("Obim", ["Obim.cfg"] + (["Obim_thorough.cfg"] if tier() == "thorough" else []), "Obim_mutant.cfg"),
+                              # StableIterator: private range + published steal range under a lock (mutant: the owner skips the lock)
+                              ("StableIter", ["StableIter.cfg"], "StableIter_mutant.cfg")):
         for cfg in cfgs:
             r = tlc(os.path.join(fe.SP, mod + ".tla"), cfg=os.path.join(fe.SP, cfg), workers=NCPU, timeout=3000, heap="16g")
             ev.add_tlc(cfg, r)
